@@ -286,3 +286,48 @@ _build0 = build
 def build(eng, tier):
     _build0(eng, tier)
     add_save_restore_target(eng)
+
+
+def add_collection_order_obligations(eng):
+    """`In each data file the recorded byte ranges follow declaration order ... every tensor is in exactly one shard`: the list
+    returned by _write_external_tensors must line up with the tensors position by position, so the per-shard results have to be
+    concatenated in shard order.  Decided on the source: every loop of _write_external_tensors that extends the result list
+    iterates a plain variable holding a list built in shard order (the job list, or the list of futures built by a list
+    comprehension over the job list) - not a call such as as_completed(...) / reversed(...) / set(...) whose order is another."""
+    import ast
+    from pyvc import extract
+    tree = ast.parse(open(extract.module_path(ED)).read())
+    fn = next((n for n in ast.walk(tree) if isinstance(n, ast.FunctionDef) and n.name == "_write_external_tensors"), None)
+    BK = "collection-order (syntactic data flow, onnx_ir.external_data)"
+    if fn is None:
+        eng.add_static("collection-order/_write_external_tensors", False, "function not found", backend=BK)
+        return
+    # names bound to lists that are in shard order: shard_jobs (appended in the partition loop) and list comprehensions over it
+    ordered = {"shard_jobs"}
+    for n in ast.walk(fn):
+        if isinstance(n, ast.Assign) and isinstance(n.value, ast.ListComp) and len(n.value.generators) == 1:
+            it = n.value.generators[0].iter
+            if isinstance(it, ast.Name) and it.id in ordered and not n.value.generators[0].ifs:
+                ordered |= {t.id for t in n.targets if isinstance(t, ast.Name)}
+    k = 0
+    for loop in ast.walk(fn):
+        if not isinstance(loop, ast.For):
+            continue
+        extends = [c for c in ast.walk(loop) if isinstance(c, ast.Call) and isinstance(c.func, ast.Attribute) and c.func.attr in ("extend", "append")
+                   and isinstance(c.func.value, ast.Name) and c.func.value.id == "external_tensors"]
+        if not extends:
+            continue
+        k += 1
+        ok = isinstance(loop.iter, ast.Name) and loop.iter.id in ordered
+        eng.add_static(f"collection-order/_write_external_tensors/loop#{k}", ok,
+                       f"loop at line {loop.lineno} collects shard results from `{ast.unparse(loop.iter)[:60]}`" +
+                       ("" if ok else ": not a list in shard order"), backend=BK)
+    eng.add_static("collection-order/_write_external_tensors/sites", k >= 2, f"{k} collecting loops found (serial and concurrent shard drivers)", backend=BK)
+
+
+_build_c07b = build
+
+
+def build(eng, tier):
+    _build_c07b(eng, tier)
+    add_collection_order_obligations(eng)
